@@ -266,14 +266,16 @@ static Byte DecodeBaseReg(tStrComp const* pArg, Byte* Erg, Boolean MustBeReg) {
 
 static Boolean Is8(LongInt Address) {
     if (CPU16) {
-        return (((Address >> 8) & 0xff) == 0xff);
+        /* 64K address space: $ff00..$ffff (or the same as negative 16-bit number) */
+        return (Address >= -32768) && (Address <= 0xffff)
+            && (((Address >> 8) & 0xff) == 0xff);
     } else {
         return (((Address >> 8) & 0xffff) == 0xffff);
     }
 }
 
 static Boolean Is16(LongInt Address) {
-    return (CPU16) ? (True)
+    return (CPU16) ? ((Address >= -32768) && (Address <= 0xffff))
                    : (((Address >= 0) && (Address <= 0x7fff))
                       || ((Address >= 0xff8000) && (Address <= 0xffffff)));
 }
@@ -486,7 +488,7 @@ static void DecodeAdr(tStrComp* pArg, Word Mask) {
                     goto chk;
                 case 0:
                     CutSize(&Part);
-                    DispAcc += EvalStrIntExpression(&Part, Int32, &OK);
+                    DispAcc += EvalStrIntExpression(&Part, CPU16 ? Int16 : Int32, &OK);
                     if (!OK) {
                         goto chk;
                     }
